@@ -36,7 +36,7 @@ func mvalOf(v interface{}) string { return sortedList(enc(v)) }
 // wrapValuesForPath: j2x.JsonValuesForKeyPath / x2j.XmlValuesForPath = ValuesForPath on the decoded text.
 func wrapValuesForPath(m map[string]interface{}, path string, subs []string) string {
 	if hasWildSeg(path) && strings.Contains(path, "[") {
-		return "" // an index below a wildcard picks by map iteration order: two calls may differ
+		return "" // an index on or below a wildcard picks by map iteration order: two calls may differ
 	}
 	jt, jarr, xt := textsOf(m)
 	for _, t := range [][]byte{jt, jarr} {
